@@ -8,5 +8,5 @@ cd /verif
 git -C $WT checkout -q --detach "$(git -C /repo rev-parse HEAD)" 2>/dev/null
 git -C $WT checkout -q -- . ; git -C $WT clean -fdq
 if ! git -C $WT apply "$SEED/patch.diff"; then echo "PATCH DOES NOT APPLY"; exit 3; fi
-./bin/sfcheck -repo $WT -prop "$PROP" -out /tmp/vout_try 2>&1 | grep -E "^   (VIOLATION|UNDECIDED)|^== .*violations=|CHECK-BROKEN|^PASS" | cut -c1-${WIDTH:-300}
+${BIN:-./bin/sfcheck} -repo $WT -prop "$PROP" -out /tmp/vout_try 2>&1 | grep -E "^   (VIOLATION|UNDECIDED)|^== .*violations=|CHECK-BROKEN|^PASS" | cut -c1-${WIDTH:-300}
 git -C $WT checkout -q -- . ; git -C $WT clean -fdq
